@@ -623,6 +623,21 @@ fn main() {
             if !near(solid.centroid(), 4.0 / 3.0, 1.0) {
                 fail(format!("triangle polygon: centroid {:?}, expected (4/3, 1)", solid.centroid()));
             }
+            // collections: every member of the top dimension counts, lower-dimensional ones are ignored
+            use geo_types::{LineString, MultiLineString, MultiPoint};
+            let gc = GeometryCollection(vec![Geometry::Point(Point::new(0.0, 0.0)), Geometry::MultiPoint(MultiPoint(vec![Point::new(2.0, 0.0), Point::new(4.0, 0.0)]))]);
+            if !near(gc.centroid(), 2.0, 0.0) {
+                fail(format!("point + multi-point: centroid {:?}, expected (2, 0)", gc.centroid()));
+            }
+            let one: LineString<f64> = vec![(8.0, 8.0)].into();
+            let two: LineString<f64> = vec![(0.0, 0.0), (4.0, 0.0), (4.0, 2.0)].into();
+            let gc = GeometryCollection(vec![Geometry::Point(Point::new(100.0, 100.0)), Geometry::MultiLineString(MultiLineString(vec![two.clone(), two]))]);
+            if !near(gc.centroid(), (2.0 * 4.0 + 4.0 * 2.0) / 6.0, (0.0 * 4.0 + 1.0 * 2.0) / 6.0) {
+                fail(format!("point + two equal line strings: centroid {:?}", gc.centroid()));
+            }
+            if !near(MultiLineString(vec![one]).centroid(), 8.0, 8.0) {
+                fail("one-coordinate line string must contribute its coordinate".to_string());
+            }
             // rings that do not start at the origin (the formula shifts to the first vertex and back)
             let far: geo_types::LineString<f64> = vec![(10.0, 20.0), (14.0, 20.0), (10.0, 23.0), (10.0, 20.0)].into();
             if !near(geo_types::Polygon::new(far, vec![]).centroid(), 34.0 / 3.0, 21.0) {
